@@ -524,3 +524,17 @@ func (c *Ctx) runCase(s Stream, idx int) {
 	}()
 	s.Run(c, idx)
 }
+
+// MultiFaultOK: two failing outcomes with different categories are acceptable
+// when the model lists both categories (several faults are present and the
+// property lets either be reported), or when the model does not judge the
+// text at all (then only the fact that both fail is compared).
+func MultiFaultOK(m ref.Outcome, a, b LibOut) bool {
+	if a.Err == nil || b.Err == nil {
+		return false
+	}
+	if m.Unspec {
+		return true
+	}
+	return m.Fault&a.Cats != 0 && m.Fault&b.Cats != 0
+}
